@@ -74,7 +74,13 @@ fn build(ch: &mut Chooser, fmt: &str) -> (Vec<u8>, Meta, Vec<(String, String)>) 
                 b.defined_names.push((n.clone(), v.clone()));
                 expn.push((n.clone(), v));
             }
-            let e = xlsx::XEnc { prefix: ch.flag("xlsx.prefix"), indent: ch.flag("xlsx.indented"), split_text_nodes: ch.flag("xlsx.defined-name-text-split-by-comment"), bool_words: ch.flag("xlsx.date1904-spelled-true-false"), rels_target_first: ch.flag("xlsx.rels-target-before-type"), ..Default::default() };
+            // the same name defined once per sheet (sheet-local names such as a print area): every definition is listed
+            if m.names.len() == 2 && m.sheets.len() >= 2 && ch.flag("xlsx.both-defined-names-carry-the-same-name(local to sheet 0 and 1)") {
+                let n0 = b.defined_names[0].0.clone();
+                b.defined_names[1].0 = n0.clone(); expn[1].0 = n0;
+                b.defined_name_local_sheet = vec![Some(0), Some(1)];
+            }
+            let e = xlsx::XEnc { prefix: ch.flag("xlsx.prefix"), indent: ch.flag("xlsx.indented"), extras: ch.flag("xlsx.optional-elements-of-the-workbook-and-sheet-parts(calcPr, extLst with x15:workbookPr, ...)"), split_text_nodes: ch.flag("xlsx.defined-name-text-split-by-comment"), bool_words: ch.flag("xlsx.date1904-spelled-true-false"), rels_target_first: ch.flag("xlsx.rels-target-before-type"), ..Default::default() };
             (xlsx::write(&b, &e), m, expn)
         }
         "xlsb" => {
@@ -100,6 +106,14 @@ fn build(ch: &mut Chooser, fmt: &str) -> (Vec<u8>, Meta, Vec<(String, String)>) 
                     expn.push((n.clone(), format!("{t}!{cell}")));
                 }
                 b.extern_sheets = Some(xti);
+                // a name whose formula uses an earlier name: PtgName(1) PtgInt(2) PtgMul
+                if m.names.len() == 2 && ch.flag("xlsb.second-name-is-a-formula-over-the-first") {
+                    let at = b.names.len() - 1;
+                    let mut rgce = vec![0x23]; rgce.extend(((at) as u32).to_le_bytes()); rgce.extend([0x1E, 2, 0, 0x05]);
+                    b.names[at].1 = rgce;
+                    let first = m.names[0].0.clone();
+                    expn[1].1 = format!("{first}*2");
+                }
             }
             b.rel_ids_non_ascii = ch.flag("xlsb.relationship-ids-with-non-ascii-letters");
             (xlsb::write(&b, Method::Deflated), m, expn)
@@ -242,7 +256,42 @@ fn run_case(rep: &Report, ch: &mut Chooser, fmt: &str, local: &mut Vec<(u64, boo
     if rep.want_sample() && ch.choices().iter().filter(|x| **x != 0).count() >= 3 { rep.sample(desc); }
 }
 
+/// Metadata of the repository's own fixtures: sheet_names() and sheets_metadata() list the same sheets in the same order, a
+/// second reader of the same bytes reports the same metadata and defined names, and every name resolves by index.
+fn corpus_metadata(rep: &Report) {
+    let files = crate::props::corpus::fixtures(&crate::props::corpus::ALL);
+    let opened = std::sync::atomic::AtomicU64::new(0);
+    files.par_iter().for_each(|(fname, bytes)| {
+        crate::engine::crumb::set_case(&format!("C16 fixture {fname}"));
+        let r = guarded(|| -> Vec<(String, String)> {
+            let mut bad = vec![];
+            let Ok(wb) = calamine::open_workbook_auto_from_rs(Cursor::new(bytes.clone())) else { return bad };
+            opened.fetch_add(1, std::sync::atomic::Ordering::Relaxed);
+            let names = wb.sheet_names();
+            let meta: Vec<String> = wb.sheets_metadata().iter().map(|s| s.name.clone()).collect();
+            if names != meta { bad.push(("names-vs-metadata".into(), format!("sheet_names() {names:?}, sheets_metadata() {meta:?}"))); }
+            let mut seen = std::collections::HashSet::new();
+            for n in &names { if !seen.insert(n.clone()) { bad.push(("duplicate-name".into(), format!("sheet name {n:?} listed twice"))); } }
+            if let Ok(again) = calamine::open_workbook_auto_from_rs(Cursor::new(bytes.clone())) {
+                if format!("{:?}", again.sheets_metadata()) != format!("{:?}", wb.sheets_metadata()) { bad.push(("metadata-not-reproducible".into(), "two readers of the same bytes report different sheet metadata".into())); }
+                if again.defined_names() != wb.defined_names() { bad.push(("defined-names-not-reproducible".into(), "two readers of the same bytes report different defined names".into())); }
+            }
+            bad
+        });
+        rep.eval(1);
+        let replay = || Replay { json: json!({"fixture": fname}), files: vec![] };
+        match r {
+            Err(p) => { let site = normalise_site(p.rsplit(" @ ").next().unwrap_or("")); rep.fail(&format!("corpus/panic/{site}"), &format!("{fname}: panicked: {p}"), replay); }
+            Ok(bad) => { for (k, d) in &bad { rep.fail(&format!("corpus/{k}"), &format!("{fname}: {d}"), replay); } rep.case(hash_of(&("corpus", fname)), true, hash_of(&format!("{bad:?}"))); }
+        }
+        crate::engine::crumb::clear();
+    });
+    rep.extra("fixture_files", json!(files.len()));
+    rep.extra("fixture_files_opened", json!(opened.load(std::sync::atomic::Ordering::Relaxed)));
+}
+
 pub fn check(rep: &Report) {
+    corpus_metadata(rep);
     let t = crate::thorough(&rep.tier);
     rep.rule("workbooks = 0..3 sheets x 9 names (XML specials, quotes, non-ASCII, a C1 control character, astral, 31 characters) x visibility x kind (xlsx/xlsb: work/chart/dialog/macro; xls dt 0/1/2/6; ods display) x 0..2 reference-valued defined names x 1900/1904 (+ a date cell on every worksheet) x prefix / name packing / xls substreams stored in reverse of BoundSheet8 order / a formula-less name record before the names (xls, xlsb); per format all choice vectors with <= d deviations from (one visible worksheet 'Sheet1') and the full product over one-sheet workbooks; non-trivial = non-default; distinct by file bytes");
     rep.assume("defined names are reference-valued (the one form all four readers decode); picture/VBA parts are not present");
@@ -270,6 +319,7 @@ pub fn check(rep: &Report) {
 pub fn replay(path: &str) -> i32 {
     let Ok(s) = std::fs::read_to_string(path) else { return 2 };
     let v: serde_json::Value = serde_json::from_str(&s).unwrap();
+    if let Some(c) = crate::props::corpus::replay_fixture(&v) { return c; }
     let choices: Vec<u32> = v["choices"].as_array().unwrap().iter().map(|x| x.as_u64().unwrap() as u32).collect();
     let fmt = v["format"].as_str().unwrap().to_string();
     let mut outs = vec![];
